@@ -57,8 +57,8 @@ CLAIMED["C10"] = (
 CLAIMED["C01"] = (
     "model_checking",
     "explicit-state BFS over the real export pipeline with a LIVE observing session (PeerSession::run over loopback TCP), differential oracle against a brand-new session on a replica daemon",
-    "Every history up to the depth bound of announce / withdraw / peer-down (with and without GR) / LLGR start / stale purge / next-hop flap / export-policy swap / soft_reset_out / ROUTE-REFRESH events from two peers, the local source and the neighbour itself, with an explicit sync op controlling when the observing session delivers and flushes (batched vs one-by-one delivery), is executed against the real TableManager + PeerSession::run + process_nlri_change + PendingTx + flush_tx + encoder; at every sync the neighbour's mirror Adj-RIB-In decoded from the received bytes must equal the mirror of a brand-new session with identical parameters from the same address on a replica daemon rebuilt by replaying the RIB ops, and contain only prefixes the RIB still has. Configurations: observer role (eBGP, iBGP, RR client, RS client), add-path send-max 1/2, 1/2 shards, op packs for destination-id re-use, multi-source/best-change/add-path window, GR/LLGR + policy, and late-observer packs in which the neighbour's session comes up in the middle of a history and is held (cfg-guarded gate after on_established) with its initial dump buffered, so that the following changes are delivered before its first flush. The canonical state contains the RIB, the neighbour's mirror and the change events queued since the last sync (read from a second listener on the TableManager's stream).",
-    "Producers are serialised (direct TableManager calls; shard locks make them atomic); the registration race is covered by C18's scheduler harness. The bytes are decoded with the repository's parser under the neighbour's codec. An export-policy change is always followed by a soft reset / route refresh before views are compared. TCP partial writes are not varied. Two add-path re-advertisement defects are recorded as known findings.",
+    "Every history up to the depth bound of announce / withdraw / peer-down (with and without GR) / LLGR start / stale purge / next-hop flap / export-policy swap / soft_reset_out / ROUTE-REFRESH events from two peers, the local source and the neighbour itself, with an explicit sync op controlling when the observing session delivers and flushes (batched vs one-by-one delivery), is executed against the real TableManager + PeerSession::run + process_nlri_change + PendingTx + flush_tx + encoder; at every sync the neighbour's mirror Adj-RIB-In decoded from the received bytes must equal the mirror of a brand-new session with identical parameters from the same address on a replica daemon rebuilt by replaying the RIB ops, and contain only prefixes the RIB still has. Configurations: observer role (eBGP, iBGP, RR client, RS client), add-path send-max 1/2, 1/2 shards, op packs for destination-id re-use, multi-source/best-change/add-path window, GR/LLGR + policy, and late-observer packs in which the neighbour's session comes up in the middle of a history and is held (cfg-guarded gate after on_established) with its initial dump buffered, so that the following changes are delivered before its first flush. The canonical state contains the RIB, the neighbour's mirror and the change events queued since the last sync (read from a second listener on the TableManager's stream). Focused small packs at one more level of depth: add-path with next-hop flaps on the best / non-best path, add-path and plain with an export policy that starts / stops rejecting a path inside the window. Schedule part: stateless exploration (baton scheduler, all schedules with <= 3 preemptions, thorough: all interleavings) of session establishment - register_peer's per-shard initial dump + channel registration - against concurrent withdraw / announce / replace / peer drop on both shards; fold(dump, delivered changes) must equal the Loc-RIB.",
+    "In the BFS part producers are serialised (direct TableManager calls; shard locks make them atomic); the race between session establishment and RIB changes is explored by the schedule part. The bytes are decoded with the repository's parser under the neighbour's codec. An export-policy change is always followed by a soft reset / route refresh before views are compared. TCP partial writes are not varied. Two add-path re-advertisement defects are recorded as known findings.",
     "DESIGN.md §5 C01",
 )
 CLAIMED["C16"] = (
